@@ -376,15 +376,16 @@ class _Enc(Flow):
                 self.handles.add(h)
 
     def _wopen(self, e):
-        return (
-            isinstance(e, ast.Call)
-            and isinstance(e.func, ast.Name)
-            and e.func.id == 'open'
-            and e.args
-            and isinstance(e.args[0], ast.Name)
-            and e.args[0].id == self.staged
-            and write_mode(e)
-        )
+        if not (isinstance(e, ast.Call) and e.args and isinstance(e.args[0], ast.Name) and write_mode(e)):
+            return False
+        if isinstance(e.func, ast.Name) and e.func.id == 'open':
+            return e.args[0].id == self.staged
+        # os.fdopen(fd, 'wb') on the descriptor that the creator of the staged path returned with it
+        if (self.prog.callee(e, self.f) or '') == 'external:os.fdopen':
+            sc = self.deps.sc
+            a, b = sc.assigns().get(e.args[0].id, []), sc.assigns().get(self.staged, [])
+            return len(a) == 1 and len(b) == 1 and a[0][0] is b[0][0] and a[0][1] == 0
+        return False
 
     def on_call(self, call, st):
         fs, dumped, digested = st
@@ -429,7 +430,7 @@ def _rule1(ctx, rep):
     with rep.rule(
         'R-C07-1',
         'db.util.encode: the store name is built from the md5 and sha1 digests of the staged file, taken after the pickle of the value was written and closed',
-        floor=3,
+        floor=2,
         breaks='a stored file does not hash to its own name, or identical content gets two names (kept twice, reported new twice)',
     ) as r:
         sc = Scope(prog, func=f)
@@ -488,6 +489,7 @@ def _rule1(ctx, rep):
             r.fail(f'{q}:{norm(node)}', where(f, node), msg)
         # (c) what the name depends on
         for n in rets:
+            r.instance()
             labs = deps.expr(n.value.elts[1])
             want = {('digest', 'md5', 'staged file'), ('digest', 'sha1', 'staged file')}
             extra = sorted(str(x) for x in labs - want)
@@ -715,7 +717,7 @@ def _rule2(ctx, rep):
         'R-C07-2',
         'db.util.move: the existence of data_dbs/<name> is decided before any file operation; exists -> only the staged copy is unlinked; '
         'not exists -> the staged file is moved there; the returned flag is a function of that decision',
-        floor=3,
+        floor=2,
         breaks='identical content overwrites/duplicates the stored copy, a stored file is deleted while referenced, or the novelty flag does not reflect prior presence',
     ) as r:
         pol, fl, out, table, pc = move_facts(prog)
@@ -734,16 +736,18 @@ def _rule2(ctx, rep):
         cover = set()
         for (E, ops, known), node in sorted(paths.items(), key=lambda kv: str(kv[0])):
             cover.add(E)
+            r.instance()
             if E is None:
                 r.fail(f'{q}:untested-path', where(f, node), f'a path returns without ever testing whether data_dbs/<name> exists (operations on it: {list(ops)})')
                 continue
             if None in known:
                 r.fail(f'{q}:op-before-test', where(f, node), f'file operation(s) {list(ops)} happen before the existence test')
                 continue
-            for o in ops:
-                r.instance()
+            # prior existence: the stored copy must not be touched; the only operation accepted is dropping the staged copy
+            # (leaving it behind leaks staging space but does not break the store, so it is not demanded here)
+            good = ops == want[E] or (E is True and ops == ())
             r.check(
-                ops == want[E],
+                good,
                 f'{q}:exists={E}',
                 where(f, fl.opnodes.get(ops[0]) if ops else node),
                 f'prior existence {E}: operations are exactly {list(want[E])}',
@@ -769,3 +773,1310 @@ def _rule2(ctx, rep):
             )
         elif fl.returns:
             r.fail(f'{q}:decision', where(f), f'the existence decision does not split into an exists and a not-exists path (seen: {sorted(str(c) for c in cover)})')
+
+
+# ---------------------------------------------------------------------------
+# catalogue (DBI().tables) accesses: who reads / stores / deletes
+
+READ_METHODS = {'values', 'items', 'keys', 'get', 'copy', '__contains__', '__getitem__', '__len__', '__iter__'}
+STORE_METHODS = {'update', 'setdefault', '__setitem__'}
+DELETE_METHODS = {'pop', 'popitem', 'clear', '__delitem__'}
+READ_BUILTINS = {'dict', 'list', 'len', 'sorted', 'set', 'tuple', 'iter', 'enumerate', 'bool', 'str', 'repr', 'frozenset', 'any', 'all', 'min', 'max'}
+
+
+def _is_dbi(sc, e):
+    if isinstance(e, ast.Call):
+        return sc.callee(e) == DBI
+    if isinstance(e, ast.Name):
+        a = sc.assigns().get(e.id, [])
+        return len(a) == 1 and a[0][1] is None and isinstance(a[0][0], ast.Call) and sc.callee(a[0][0]) == DBI
+    return False
+
+
+def _tables(sc, e):
+    return isinstance(e, ast.Attribute) and e.attr == 'tables' and _is_dbi(sc, e.value)
+
+
+def selection(sc, e):
+    if isinstance(e, ast.Attribute) and _tables(sc, e.value):
+        return ('static', e.attr)
+    if isinstance(e, ast.Subscript) and _tables(sc, e.value):
+        return ('dyn', e.slice)
+    return None
+
+
+def _stmt_of(sc, node):
+    p = sc.parents()
+    while node is not None and not isinstance(node, ast.stmt):
+        node = p.get(id(node))
+    return node
+
+
+def uses(prog, sc, node, depth=0, via=()):
+    """how the object denoted by ``node`` is used: [(kind, anchor, stored value expr)] with kind in read/store/delete/unknown"""
+    p = sc.parents()
+    par = p.get(id(node))
+    stmt = _stmt_of(sc, node)
+    if par is None:
+        return [('unknown', stmt or node, None)]
+    if isinstance(par, ast.Subscript) and par.value is node:
+        gp = p.get(id(par))
+        if isinstance(par.ctx, ast.Store):
+            val = gp.value if isinstance(gp, ast.Assign) and len(gp.targets) == 1 else None
+            return [('store', stmt, val)]
+        if isinstance(par.ctx, ast.Del):
+            return [('delete', stmt, None)]
+        return [('read', stmt, None)]
+    if isinstance(par, ast.Attribute) and par.value is node:
+        gp = p.get(id(par))
+        if isinstance(gp, ast.Call) and gp.func is par:
+            if par.attr in READ_METHODS:
+                return [('read', gp, None)]
+            if par.attr in STORE_METHODS:
+                return [('store', gp, None)]
+            if par.attr in DELETE_METHODS:
+                return [('delete', gp, None)]
+        return [('unknown', stmt, None)]
+    call, pname_pos = None, None
+    if isinstance(par, ast.keyword):
+        call = p.get(id(par))
+        pname_pos = par.arg
+    elif isinstance(par, ast.Call) and any(a is node for a in par.args):
+        call = par
+        pname_pos = [i for i, a in enumerate(par.args) if a is node][0]
+    if isinstance(call, ast.Call):
+        sym = sc.callee(call) or ''
+        if sym.startswith('external:') and sym[9:] in READ_BUILTINS:
+            return [('read', call, None)]
+        fn = prog.func_of(sym) if sym else None
+        if fn is not None and sym not in prog.classes and depth < 2 and pname_pos is not None:
+            params = fn.params()
+            if fn.cls is not None and not fn.is_staticmethod() and params and params[0] in ('self', 'cls'):
+                params = params[1:]
+            pn = pname_pos if isinstance(pname_pos, str) else (params[pname_pos] if pname_pos < len(params) else None)
+            if pn is not None:
+                kinds = param_effect(prog, fn, pn, depth + 1)
+                return [(k, call, None) for k in sorted(kinds)]
+        return [('unknown', call, None)]
+    if isinstance(par, ast.Compare) and any(c is node for c in par.comparators):
+        return [('read', stmt, None)]
+    if isinstance(par, (ast.For, ast.AsyncFor, ast.comprehension)) and par.iter is node:
+        return [('read', stmt, None)]
+    if isinstance(par, ast.Assign) and par.value is node and len(par.targets) == 1 and isinstance(par.targets[0], ast.Name):
+        alias = par.targets[0].id
+        if alias in via or len(sc.assigns().get(alias, [])) != 1:
+            return [('unknown', stmt, None)]
+        out = []
+        for n in sc.nodes():
+            if isinstance(n, ast.Name) and n.id == alias and isinstance(n.ctx, ast.Load):
+                out += uses(prog, sc, n, depth, via + (alias,))
+        return out or [('read', stmt, None)]
+    return [('unknown', stmt, None)]
+
+
+def param_effect(prog, fn, pname, depth):
+    sc = Scope(prog, func=fn)
+    if pname in sc.assigns():
+        return {'unknown'}
+    kinds = {'read'}
+    for n in sc.nodes():
+        if isinstance(n, ast.Name) and n.id == pname and isinstance(n.ctx, ast.Load):
+            kinds |= {k for k, _a, _v in uses(prog, sc, n, depth)}
+    return kinds
+
+
+def table_events(prog, sc):
+    """[(kind, anchor, value, sel)] for every use of a table selected from DBI().tables in this scope"""
+    c = sc.__dict__.get('_tev')
+    if c is None:
+        c = []
+        for n in sc.nodes():
+            sel = selection(sc, n)
+            if sel is not None:
+                for kind, anchor, val in uses(prog, sc, n):
+                    c.append((kind, anchor, val, sel))
+        sc.__dict__['_tev'] = c
+    return c
+
+
+# ---------------------------------------------------------------------------
+# the signal interpreter: where do the (name, existed) results of move flow to
+
+NOSTATE = ('-', '-', False)
+
+
+class Model:
+    def __init__(self, ctx):
+        self.ctx = ctx
+        self.prog = prog = ctx.prog
+        self.move_pol = move_facts(prog)[0]
+        m = prog.module(COMMS)
+        self.fields = None
+        for v in m.globals.get('COMMAND', []):
+            if isinstance(v, ast.Call) and len(v.args) >= 2 and isinstance(v.args[1], (ast.List, ast.Tuple)):
+                self.fields = [e.value for e in v.args[1].elts if isinstance(e, ast.Constant)]
+        if not self.fields or len(self.fields) != 4:
+            raise AnalysisError('comms.COMMAND is no longer a 4-field namedtuple with literal field names')
+        self.f_func, self.f_key, self.f_table, self.f_value = self.fields
+        self.do = prog.func(WORKER_DO)
+        self.worker = prog.cls(WORKER)
+        self._ret = {}
+        self._runs = {}
+        self._busy = set()
+        self._scopes = {}
+        self.visited = 0
+
+    def scope(self, func):
+        s = self._scopes.get(func.qname)
+        if s is None:
+            s = self._scopes[func.qname] = Scope(self.prog, func=func)
+        return s
+
+    def cmd_field(self, call, name):
+        i = self.fields.index(name)
+        for k in call.keywords:
+            if k.arg == name:
+                return k.value
+        if i < len(call.args) and not any(isinstance(a, ast.Starred) for a in call.args[: i + 1]):
+            return call.args[i]
+        return None
+
+    def enum_member(self, sc, e, enum):
+        """name of the member when e resolves to <enum>.<member>[.value]"""
+        sym = sc.resolve(e) if isinstance(e, (ast.Name, ast.Attribute)) else None
+        if sym and sym.startswith(enum + '.'):
+            rest = sym[len(enum) + 1 :].split('.')
+            if len(rest) == 1 or (len(rest) == 2 and rest[1] == 'value'):
+                return rest[0]
+        return None
+
+    def is_sender(self, sym):
+        """the serializer's reply primitive: a Worker method that writes to self.transport"""
+        fn = self.prog.funcs.get(sym)
+        if fn is None or fn.cls is None or fn.cls.qname != WORKER:
+            return False
+        c = fn.__dict__.get('_c07_sender')
+        if c is None:
+            c = fn.__dict__['_c07_sender'] = any(
+                isinstance(n, ast.Call) and isinstance(n.func, ast.Attribute) and n.func.attr == 'write' and 'transport' in norm(n.func.value)
+                for n in fn.own_nodes()
+            ) and any((self.prog.callee(n, fn) or '') == 'external:pickle.dumps' for n in fn.calls())
+        return c
+
+    def is_rpc_client(self, fn):
+        """sends the pickled request and returns the unpickled reply"""
+        if fn is None:
+            return False
+        rets = [n for n in fn.own_nodes() if isinstance(n, ast.Return) and n.value is not None]
+        return bool(rets) and all(isinstance(n.value, ast.Call) and (self.prog.callee(n.value, fn) or '') == 'external:pickle.loads' for n in rets)
+
+    def run(self, func):
+        """interpret one function standalone ; returns the _Sig with its events"""
+        r = self._runs.get(func.qname)
+        if r is None:
+            if func.qname in self._busy:
+                return None
+            self._busy.add(func.qname)
+            r = _Sig(self, func)
+            if func.qname == WORKER_DO:
+                params = func.params()
+                r.req = frozenset(params[1:2])
+            r.out = r.run(func.node, (('?', '?', False) if func.qname == WORKER_DO else NOSTATE, frozenset()))
+            self.visited += r.visited
+            self._busy.discard(func.qname)
+            self._runs[func.qname] = r
+        return r
+
+    def ret_summary(self, func):
+        if func.qname in self._ret:
+            return self._ret[func.qname]
+        r = self.run(func)
+        v = None
+        if r is not None:
+            vals = {eget(env, '<ret>') for _c, env in r.out.ret} | ({None} if r.out.normal else set())
+            if len(vals) == 1:
+                v = next(iter(vals))
+            self._ret[func.qname] = v
+        return v
+
+    def rpc_reply(self, fname):
+        """what the serializer sends back in the branch of Func.<fname>: the common abstract value of every reply there"""
+        r = self.run(self.do)
+        if r is None:
+            return None
+        vals = set()
+        for (kind, _n), (_f, _node, obs) in r.events.items():
+            if kind == 'send':
+                vals |= {x for (c, x) in obs if c[0] == fname}
+        return next(iter(vals)) if len(vals) == 1 else None
+
+
+class _Sig(Flow):
+    """state = (ctx, env): ctx = (branch of the request dispatch, table of the request, has move been called) ;
+    env: local -> abstract value in
+      ('pair', p) result of move ; ('name',) its first component ; ('flag', p) its second component with polarity p
+      relative to 'identical content was already stored' ; ('enc', None|0|1) result of encode / its components ; ('sql',) an
+      INSERT INTO Prime text"""
+
+    def __init__(self, model, func):
+        super().__init__()
+        self.m = model
+        self.prog = model.prog
+        self.func = func
+        self.req = frozenset()
+        self.depth = 0
+        self.events = {}
+        self.inlined = {}
+
+    # -- bookkeeping
+    def event(self, kind, node, ctx, extra):
+        k = (kind, id(node))
+        e = self.events.get(k)
+        if e is None:
+            e = self.events[k] = (self.func, node, set())
+        e[2].add((ctx, extra))
+
+    def sc(self):
+        return self.m.scope(self.func)
+
+    # -- abstract values
+    def aval(self, e, st):
+        env = st[1]
+        if isinstance(e, ast.Name):
+            return eget(env, e.id)
+        if isinstance(e, ast.Call):
+            v = eget(env, callkey(e))
+            if v is not None:
+                return v
+            sym = self.prog.callee(e, self.func) or ''
+            if sym == MOVE:
+                return ('pair', self.m.move_pol)
+            if sym == ENCODE:
+                return ('enc', None)
+            if sym == 'external:bool' and len(e.args) == 1:
+                return self.aval(e.args[0], st)
+            if e.args and isinstance(e.args[0], ast.Call) and self.prog.callee(e.args[0], self.func) == COMMAND:
+                fn = self.prog.func_of(sym) if sym else None
+                fname = self.m.enum_member(self.sc(), self.m.cmd_field(e.args[0], self.m.f_func), FUNC)
+                if fname and self.m.is_rpc_client(fn) and self.func.qname != WORKER_DO:
+                    return self.m.rpc_reply(fname)
+                return None
+            fn = self.prog.func_of(sym) if sym else None
+            if fn is not None and sym not in self.prog.classes and fn.qname != self.func.qname:
+                return self.m.ret_summary(fn)
+            return None
+        if isinstance(e, ast.Subscript) and isinstance(e.slice, ast.Constant) and isinstance(e.slice.value, int):
+            v = self.aval(e.value, st)
+            if v and v[0] == 'pair' and e.slice.value in (0, 1):
+                return ('name',) if e.slice.value == 0 else ('flag', v[1])
+            if v == ('enc', None) and e.slice.value in (0, 1):
+                return ('enc', e.slice.value)
+            return None
+        if isinstance(e, ast.UnaryOp) and isinstance(e.op, ast.Not):
+            v = self.aval(e.operand, st)
+            return ('flag', -v[1]) if v and v[0] == 'flag' else None
+        if isinstance(e, ast.BoolOp) and isinstance(e.op, ast.And) or isinstance(e, ast.BinOp) and isinstance(e.op, ast.BitAnd):
+            # conjunction with another fact keeps the dependence on the existence signal monotone (post: "and a Prime row names it")
+            vals = e.values if isinstance(e, ast.BoolOp) else [e.left, e.right]
+            fl = [v for v in (self.aval(x, st) for x in vals) if v is not None]
+            return fl[0] if len(fl) == 1 and fl[0][0] == 'flag' else None
+        if isinstance(e, ast.Compare) and len(e.ops) == 1 and isinstance(e.comparators[0], ast.Constant) and isinstance(e.comparators[0].value, bool):
+            v = self.aval(e.left, st)
+            if v and v[0] == 'flag':
+                same = isinstance(e.ops[0], (ast.Is, ast.Eq))
+                if not same and not isinstance(e.ops[0], (ast.IsNot, ast.NotEq)):
+                    return None
+                return ('flag', v[1] if same == e.comparators[0].value else -v[1])
+            return None
+        if isinstance(e, ast.IfExp):
+            v = self.aval(e.test, st)
+            a, b = e.body, e.orelse
+            if v and v[0] == 'flag' and all(isinstance(x, ast.Constant) and isinstance(x.value, bool) for x in (a, b)) and a.value != b.value:
+                return ('flag', v[1] if a.value else -v[1])
+            return None
+        if isinstance(e, ast.Constant) or e is None:
+            return None
+        if has_insert_prime(e) and isinstance(e, (ast.BinOp, ast.Constant)):
+            return ('sql',)
+        return None
+
+    # -- hooks
+    def on_stmt(self, s, st):
+        ctx, env = st
+        self._table_anchor(s, st)
+        if isinstance(s, (ast.Assign, ast.AnnAssign)) and s.value is not None:
+            tg = s.targets if isinstance(s, ast.Assign) else [s.target]
+            v = self.aval(s.value, st)
+            if v is None and has_insert_prime(s.value) and not isinstance(s.value, ast.Call):
+                v = ('sql',)
+            for t in tg:
+                if isinstance(t, ast.Name):
+                    env = eset(env, t.id, v)
+                elif isinstance(t, (ast.Tuple, ast.List)) and len(t.elts) == 2 and all(isinstance(x, ast.Name) for x in t.elts) and v and v[0] in ('pair', 'enc') and (v[0] == 'pair' or v[1] is None):
+                    if v[0] == 'pair':
+                        env = eset(eset(env, t.elts[0].id, ('name',)), t.elts[1].id, ('flag', v[1]))
+                    else:
+                        env = eset(eset(env, t.elts[0].id, ('enc', 0)), t.elts[1].id, ('enc', 1))
+                else:
+                    for n in target_names(t):
+                        if not isinstance(t, (ast.Subscript, ast.Attribute)):
+                            env = eset(env, n, None)
+        elif isinstance(s, ast.AugAssign) and isinstance(s.target, ast.Name):
+            cur = eget(env, s.target.id)
+            keep = cur and cur[0] == 'flag' and isinstance(s.op, ast.BitAnd) and self.aval(s.value, st) is None
+            if not keep:
+                env = eset(env, s.target.id, None)
+        return ((ctx, env),)
+
+    def on_for(self, node, st):
+        ctx, env = st
+        for n in target_names(node.target):
+            env = eset(env, n, None)
+        return ((ctx, env),)
+
+    def on_with(self, item, st):
+        ctx, env = st
+        if item.optional_vars is not None:
+            for n in target_names(item.optional_vars):
+                env = eset(env, n, None)
+        return ((ctx, env),)
+
+    def on_handler(self, h, st):
+        ctx, env = st
+        return ((ctx, eset(env, h.name, None) if h.name else env),)
+
+    def on_return(self, node, st):
+        self._table_anchor(node, st)
+        ctx, env = st
+        return ((ctx, eset(env, '<ret>', self.aval(node.value, st) if node.value is not None else None)),)
+
+    def _table_anchor(self, node, st, value_of=None):
+        for kind, anchor, val, sel in table_events(self.prog, self.sc()):
+            if anchor is node and kind != 'read':
+                self.event('table', node, st[0], (kind, self.sel_class(sel), self.aval(val, st) if val is not None else None, norm(val) if val is not None else ''))
+
+    def sel_class(self, sel):
+        if sel[0] == 'static':
+            return 'prime' if sel[1] == 'prime' else 'nonprime'
+        mem = self.m.enum_member(self.sc(), sel[1], TABLE)
+        if mem:
+            return 'prime' if mem == 'prime' else 'nonprime'
+        if self._req_attr(sel[1], self.m.f_table) or (isinstance(sel[1], ast.Attribute) and sel[1].attr == 'value' and self._req_attr(sel[1].value, self.m.f_table)):
+            return 'req'
+        return '?'
+
+    def _req_attr(self, e, field):
+        return isinstance(e, ast.Attribute) and e.attr == field and isinstance(e.value, ast.Name) and e.value.id in self.req
+
+    def on_test(self, e, st):
+        (branch, tbl, moved), env = st
+        if self.req and isinstance(e, ast.Compare) and len(e.ops) == 1:
+            a, b, op = e.left, e.comparators[0], e.ops[0]
+            for x, y in ((a, b), (b, a)):
+                if self._req_attr(x, self.m.f_func):
+                    if isinstance(op, (ast.Eq, ast.Is, ast.NotEq, ast.IsNot)):
+                        mem = self.m.enum_member(self.sc(), y, FUNC)
+                        if mem:
+                            hit = [((mem, tbl, moved), env)] if branch in ('?', mem) else []
+                            miss = [st] if branch != mem else []
+                            return (hit, miss) if isinstance(op, (ast.Eq, ast.Is)) else (miss, hit)
+                    if isinstance(op, (ast.In, ast.NotIn)) and x is a and isinstance(y, (ast.List, ast.Tuple, ast.Set)):
+                        mems = [self.m.enum_member(self.sc(), el, FUNC) for el in y.elts]
+                        if all(mems):
+                            hit = [(((mems[0] if len(mems) == 1 else branch), tbl, moved), env)] if branch == '?' or branch in mems else []
+                            miss = [st] if branch not in mems else []
+                            return (hit, miss) if isinstance(op, ast.In) else (miss, hit)
+                    return (st,), (st,)
+                tx = x.value if isinstance(x, ast.Attribute) and x.attr == 'value' else x
+                if self._req_attr(tx, self.m.f_table) and isinstance(op, (ast.Eq, ast.Is, ast.NotEq, ast.IsNot)):
+                    mem = self.m.enum_member(self.sc(), y, TABLE)
+                    if mem:
+                        if mem == 'prime':
+                            hit = [((branch, 'prime', moved), env)] if tbl != 'nonprime' else []
+                            miss = [((branch, 'nonprime', moved), env)] if tbl != 'prime' else []
+                        else:
+                            hit = [((branch, 'nonprime', moved), env)] if tbl != 'prime' else []
+                            miss = [st]
+                        return (hit, miss) if isinstance(op, (ast.Eq, ast.Is)) else (miss, hit)
+        return (st,), (st,)
+
+    def on_call(self, call, st):
+        ctx, env = st
+        sym = self.prog.callee(call, self.func) or ''
+        self._table_anchor(call, st)
+        if sym == MOVE:
+            self.event('move', call, ctx, self._provenance(call, st))
+            return (((ctx[0], ctx[1], True), env),)
+        if sym == COMMAND:
+            fname = self.m.enum_member(self.sc(), self.m.cmd_field(call, self.m.f_func), FUNC)
+            val = self.m.cmd_field(call, self.m.f_value)
+            tab = self.m.cmd_field(call, self.m.f_table)
+            self.event('command', call, ctx, (fname, self.aval(val, st) if val is not None else None, norm(tab) if tab is not None else None))
+            return (st,)
+        if self.m.is_sender(sym):
+            self.event('send', call, ctx, self.aval(call.args[0], st) if call.args else None)
+            return (st,)
+        if call_name(call) == 'new_values' and len(call.args) == 1 and not call.keywords:
+            a = call.args[0]
+            v = self.aval(a.elts[1], st) if isinstance(a, ast.Tuple) and len(a.elts) == 2 else None
+            self.event('newv', call, ctx, v)
+            return (st,)
+        if sym == 'dawgie.pl.message.make':
+            for k in call.keywords:
+                if k.arg == 'val':
+                    self.event('reply', call, ctx, (self.aval(k.value, st), norm(k.value)))
+            return (st,)
+        argv = [a.value if isinstance(a, ast.Starred) else a for a in call.args] + [k.value for k in call.keywords]
+        if has_insert_prime(call) or any(self.aval(a, st) == ('sql',) for a in argv if isinstance(a, ast.Name)):
+            names = {n.id for a in argv for n in ast.walk(a) if isinstance(n, ast.Name)}
+            self.event('insert', call, ctx, frozenset(v for v in (eget(env, n) for n in names) if v is not None))
+            return (st,)
+        # helpers of the serializer called on self (or module functions next to it) are inlined
+        fn = self.prog.funcs.get(sym)
+        if (
+            self.req
+            and fn is not None
+            and self.depth < MAX_INLINE
+            and fn.qname != self.func.qname
+            and fn.module.name == COMMS
+            and (fn.cls is None or fn.cls.qname == WORKER)
+            and not isinstance(fn.node, ast.AsyncFunctionDef)
+        ):
+            return self._inline(call, st, fn)
+        return (st,)
+
+    def _provenance(self, call, st):
+        args = call.args
+        if len(args) == 1 and isinstance(args[0], ast.Starred) and not call.keywords:
+            x = args[0].value
+            if self.aval(x, st) == ('enc', None):
+                return ('encode',)
+            if self._req_attr(x, self.m.f_value):
+                return ('request-value',)
+            return ('unknown', norm(x))
+        if len(args) == 2 and not call.keywords and not any(isinstance(a, ast.Starred) for a in args):
+            a, b = args
+            if self.aval(a, st) == ('enc', 0) and self.aval(b, st) == ('enc', 1):
+                return ('encode',)
+            if all(isinstance(x, ast.Attribute) and isinstance(x.value, ast.Name) for x in (a, b)) and a.value.id == b.value.id and a.value.id in self.func.params():
+                return ('relay', a.value.id, a.attr, b.attr)
+        return ('unknown', norm(call)[:80])
+
+    def _inline(self, call, st, fn):
+        ctx, env = st
+        params = fn.params()
+        if fn.cls is not None and not fn.is_staticmethod() and params:
+            params = params[1:]
+        cenv = frozenset()
+        req = set()
+        pos = [a for a in call.args]
+        if any(isinstance(a, ast.Starred) for a in pos) or len(pos) > len(params):
+            return (st,)
+        binds = list(zip(params, pos)) + [(k.arg, k.value) for k in call.keywords if k.arg in params]
+        for pn, a in binds:
+            cenv = eset(cenv, pn, self.aval(a, st))
+            if isinstance(a, ast.Name) and a.id in self.req:
+                req.add(pn)
+        saved = (self.func, self.req, self.depth)
+        self.func, self.req, self.depth = fn, frozenset(req), self.depth + 1
+        self.inlined.setdefault(fn.qname, set()).add(saved[0].qname)
+        try:
+            o = self.block(fn.node.body, {(ctx, cenv)})
+        finally:
+            self.func, self.req, self.depth = saved
+        outs = set()
+        k = callkey(call)
+        for c2, _e2 in o.normal:
+            outs.add((c2, eset(env, k, None)))
+        for c2, e2 in o.ret:
+            outs.add((c2, eset(env, k, eget(e2, '<ret>'))))
+        if self._try and o.exc:
+            self._try[-1] |= {(c2, env) for c2, _e2 in o.exc}
+        return outs
+
+
+def sel_class(model, sc, sel, req=frozenset()):
+    """'prime' | 'nonprime' | 'req' (the table named by the request) | '?'"""
+    if sel[0] == 'static':
+        return 'prime' if sel[1] == 'prime' else 'nonprime'
+    mem = model.enum_member(sc, sel[1], TABLE)
+    if mem:
+        return 'prime' if mem == 'prime' else 'nonprime'
+    e = sel[1]
+    if isinstance(e, ast.Attribute) and e.attr == 'value':
+        e = e.value
+    if isinstance(e, ast.Attribute) and e.attr == model.f_table and isinstance(e.value, ast.Name) and e.value.id in req:
+        return 'req'
+    return '?'
+
+
+def method_callers(prog, meth):
+    """call sites that do, or (receiver not resolvable, arity compatible) may, call the method: [(scope, call, definite)]"""
+    params = meth.params()[1:] if meth.cls is not None and not meth.is_staticmethod() else meth.params()
+    required = len(params) - len(meth.node.args.defaults)
+    out = []
+    for sc in all_scopes(prog):
+        if f'.{meth.name}(' not in sc.module.source and f'{meth.name}(' not in sc.module.source:
+            continue
+        for n in sc.nodes():
+            if not (isinstance(n, ast.Call) and call_name(n) == meth.name):
+                continue
+            sym = sc.callee(n)
+            fn = prog.func_of(sym) if sym else None
+            if fn is not None and fn.qname == meth.qname:
+                out.append((sc, n, True))
+            elif fn is None and (sym is None or sym.startswith('local:') or sym.startswith('self.')):
+                k = len(n.args) + len(n.keywords)
+                if required <= k <= len(params) and not any(isinstance(a, ast.Starred) for a in n.args):
+                    out.append((sc, n, False))
+    return out
+
+
+def command_sites(prog):
+    c = prog.__dict__.get('_c07_cmds')
+    if c is None:
+        c = []
+        for sc in all_scopes(prog):
+            if 'COMMAND' not in sc.module.source:
+                continue
+            for n in sc.nodes():
+                if isinstance(n, ast.Call) and sc.callee(n) == COMMAND:
+                    c.append((sc, n))
+        prog.__dict__['_c07_cmds'] = c
+    return c
+
+
+def client_tables(model, fname):
+    """tables that in-repo clients name in requests of Func.<fname>: (set of member names, [unresolved texts])"""
+    prog = model.prog
+    tabs, unknown = set(), []
+    for sc, call in command_sites(prog):
+        if model.enum_member(sc, model.cmd_field(call, model.f_func), FUNC) != fname:
+            continue
+        t = model.cmd_field(call, model.f_table)
+        mem = model.enum_member(sc, t, TABLE) if t is not None else None
+        if mem:
+            tabs.add(mem)
+        elif isinstance(t, ast.Constant) and t.value is None:
+            continue
+        elif isinstance(t, ast.Name) and sc.func is not None and t.id in sc.params() and t.id not in sc.assigns():
+            g = sc.func
+            params = g.params()[1:] if g.cls is not None and not g.is_staticmethod() else g.params()
+            i = params.index(t.id)
+            callers = method_callers(prog, g)
+            if not callers:
+                continue
+            for csc, c, _definite in callers:
+                a = c.args[i] if i < len(c.args) else next((k.value for k in c.keywords if k.arg == t.id), None)
+                mem = model.enum_member(csc, a, TABLE) if a is not None else None
+                if mem:
+                    tabs.add(mem)
+                else:
+                    unknown.append(f'{csc.qname}: {norm(c)[:60]}')
+        else:
+            unknown.append(f'{sc.qname}: {norm(call)[:60]}')
+    return tabs, unknown
+
+
+# ---------------------------------------------------------------------------
+# file operations on paths derived from dawgie.context.data_dbs (whole program)
+
+
+class Taint:
+    """shapes of path values derived from data_dbs: 'root' (the directory), 'blob' (a direct child with a computed name),
+    'subdir' (below a constant-named subdirectory, e.g. the chronicles journal: not part of the blob namespace)"""
+
+    def __init__(self, prog):
+        self.prog = prog
+        self.param = {}
+        self.sinks = {}
+        self.scopes = {sc.qname: sc for sc in all_scopes(prog)}
+        todo = [sc for sc in self.scopes.values() if 'data_dbs' in sc.module.source]
+        rounds = 0
+        while todo and rounds < 6:
+            rounds += 1
+            nxt = {}
+            for sc in todo:
+                for q in self.analyse(sc):
+                    if q in self.scopes:
+                        nxt[q] = self.scopes[q]
+            todo = list(nxt.values())
+
+    def shp(self, sc, e, names):
+        if e is None or isinstance(e, ast.Constant):
+            return set()
+        if isinstance(e, (ast.Attribute, ast.Name)):
+            if sc.resolve(e) == CTX_DBS:
+                return {'root'}
+            if isinstance(e, ast.Name):
+                return set(names.get(e.id, ()))
+            return self.shp(sc, e.value, names)
+        if isinstance(e, ast.Call):
+            sym = sc.callee(e) or ''
+            args = [a.value if isinstance(a, ast.Starred) else a for a in e.args]
+            if sym == 'external:os.path.join' and args:
+                base = self.shp(sc, args[0], names)
+                rest = set()
+                for a in args[1:]:
+                    rest |= self.shp(sc, a, names)
+                if 'root' in base:
+                    base = (base - {'root'}) | ({'subdir'} if len(args) > 1 and isinstance(args[1], ast.Constant) and isinstance(args[1].value, str) else {'blob'})
+                return base | rest
+            out = set()
+            for a in args + [k.value for k in e.keywords]:
+                out |= self.shp(sc, a, names)
+            if isinstance(e.func, ast.Attribute):
+                out |= self.shp(sc, e.func.value, names)
+            if sym in ('external:os.listdir', 'external:os.walk', 'external:os.scandir', 'external:glob.glob') and 'root' in out:
+                out = (out - {'root'}) | {'blob'}
+            return out
+        out = set()
+        for c in ast.iter_child_nodes(e):
+            if isinstance(c, ast.expr):
+                out |= self.shp(sc, c, names)
+            elif isinstance(c, ast.comprehension):
+                out |= self.shp(sc, c.iter, names)
+        if isinstance(e, (ast.BinOp, ast.JoinedStr)) and 'root' in out:
+            out = (out - {'root'}) | {'blob'}
+        return out
+
+    def analyse(self, sc):
+        names = {p: set(s) for (q, p), s in self.param.items() if q == sc.qname}
+        for _ in range(6):
+            changed = False
+            for n, vals in sc.assigns().items():
+                s = set(names.get(n, ()))
+                for value, _sel in vals:
+                    s |= self.shp(sc, value, names)
+                if s != names.get(n, set()):
+                    names[n] = s
+                    changed = True
+            if not changed:
+                break
+        touched = set()
+        for c in sc.nodes():
+            if not isinstance(c, ast.Call):
+                continue
+            sym = sc.callee(c) or ''
+            rel = []
+            kind = None
+            if sym in FILE_OPS:
+                kind, idx = FILE_OPS[sym]
+                if kind == 'copy':
+                    idx = (1,)
+                rel = [c.args[i] for i in idx if i < len(c.args)]
+            elif isinstance(c.func, ast.Name) and c.func.id == 'open' and c.args and write_mode(c):
+                kind, rel = 'write', [c.args[0]]
+            elif isinstance(c.func, ast.Attribute) and c.func.attr in PATH_METHODS and self.shp(sc, c.func.value, names):
+                kind, rel = PATH_METHODS[c.func.attr], [c.func.value]
+            elif sym.startswith(SHELL):
+                kind, rel = 'shell', list(c.args)
+            elif sym in ('external:os.makedirs', 'external:os.mkdir'):
+                kind, rel = 'mkdir', c.args[:1]
+            if kind:
+                s = set()
+                for a in rel:
+                    s |= self.shp(sc, a, names)
+                if s:
+                    self.sinks[(sc.qname, id(c))] = (sc, c, kind, 'blob' if s & {'root', 'blob'} else 'subdir')
+                continue
+            fn = self.prog.func_of(sym) if sym else None
+            if fn is not None and sym not in self.prog.classes:
+                params = fn.params()
+                if fn.cls is not None and not fn.is_staticmethod() and params and params[0] in ('self', 'cls'):
+                    params = params[1:]
+                binds = [(params[i], a) for i, a in enumerate(c.args) if i < len(params) and not isinstance(a, ast.Starred)]
+                binds += [(k.arg, k.value) for k in c.keywords if k.arg in params]
+                for pn, a in binds:
+                    s = self.shp(sc, a, names)
+                    if s - self.param.get((fn.qname, pn), set()):
+                        self.param.setdefault((fn.qname, pn), set()).update(s)
+                        touched.add(fn.qname)
+        return touched
+
+
+EXITS = {'external:sys.exit', 'external:exit', 'external:quit', 'external:os._exit'}
+SNAPSHOT_WRAPPERS = {'external:list', 'external:set', 'external:frozenset', 'external:tuple', 'external:sorted'}
+
+
+class _Purge(Flow):
+    """state = (catalogue snapshot: ?/empty/nonempty, (loop variable, ?/ref/unref) or None)"""
+
+    def __init__(self, prog, sc, taint):
+        super().__init__()
+        self.prog, self.sc = prog, sc
+        self.cat, self.fn = set(), set()
+        self.unlinks = {}
+        self.problems = []
+        sinks = {id(c) for (q, _i), (s, c, k, cl) in taint.sinks.items() if q == sc.qname and cl == 'blob'}
+        self.sink_ids = sinks
+        for n, vals in sc.assigns().items():
+            if len(vals) == 1 and vals[0][1] is None and self._snapshot(vals[0][0]):
+                self.cat.add(n)
+        for n in sc.nodes():
+            if isinstance(n, (ast.For, ast.AsyncFor)) and isinstance(n.target, ast.Name) and isinstance(n.iter, ast.Call):
+                if (sc.callee(n.iter) or '') == 'external:os.listdir' and n.iter.args and sc.resolve(n.iter.args[0]) == CTX_DBS:
+                    self.fn.add(n.target.id)
+
+    def _snapshot(self, e):
+        if isinstance(e, ast.Call):
+            sym = self.sc.callee(e) or ''
+            if sym in PRIME_VALUES:
+                return True
+            if sym in SNAPSHOT_WRAPPERS and len(e.args) == 1:
+                return self._snapshot(e.args[0])
+        return False
+
+    def on_test(self, e, st):
+        vals, ref = st
+        if isinstance(e, ast.Name) and e.id in self.cat:
+            return ((('nonempty', ref),) if vals != 'empty' else ()), ((('empty', ref),) if vals != 'nonempty' else ())
+        if isinstance(e, ast.Compare) and len(e.ops) == 1:
+            a, op, b = e.left, e.ops[0], e.comparators[0]
+            if isinstance(a, ast.Call) and (self.sc.callee(a) or '') == 'external:len' and a.args and isinstance(a.args[0], ast.Name) and a.args[0].id in self.cat and isinstance(b, ast.Constant) and b.value == 0:
+                ne, em = (('nonempty', ref),) if vals != 'empty' else (), (('empty', ref),) if vals != 'nonempty' else ()
+                if isinstance(op, ast.Eq):
+                    return em, ne
+                if isinstance(op, (ast.Gt, ast.NotEq)):
+                    return ne, em
+            if isinstance(a, ast.Name) and a.id in self.fn and isinstance(b, ast.Name) and b.id in self.cat and isinstance(op, (ast.In, ast.NotIn)):
+                cur = ref[1] if ref and ref[0] == a.id else '?'
+                r_, u_ = ((vals, (a.id, 'ref')),) if cur != 'unref' else (), ((vals, (a.id, 'unref')),) if cur != 'ref' else ()
+                return (r_, u_) if isinstance(op, ast.In) else (u_, r_)
+        return (st,), (st,)
+
+    def on_for(self, node, st):
+        if isinstance(node.target, ast.Name) and node.target.id in self.fn:
+            return ((st[0], (node.target.id, '?')),)
+        return (st,)
+
+    def on_stmt(self, s, st):
+        if isinstance(s, (ast.Assign, ast.AugAssign, ast.AnnAssign)):
+            tg = s.targets if isinstance(s, ast.Assign) else [s.target]
+            if any(n in self.cat for t in tg for n in target_names(t)) and not (isinstance(s, ast.Assign) and self._snapshot(s.value)):
+                self.problems.append((s, 'the catalogue snapshot is changed after it was taken'))
+                return (('?', st[1]),)
+        return (st,)
+
+    def on_call(self, call, st):
+        sym = self.sc.callee(call) or ''
+        if sym in EXITS:
+            return ()
+        if isinstance(call.func, ast.Attribute) and isinstance(call.func.value, ast.Name) and call.func.value.id in self.cat and call.func.attr in ('clear', 'remove', 'pop', 'append', 'extend', 'discard', 'add', 'update', 'insert'):
+            self.problems.append((call, 'the catalogue snapshot is changed after it was taken'))
+            return (('?', st[1]),)
+        if id(call) in self.sink_ids:
+            self.unlinks.setdefault(id(call), (call, set()))[1].add(st)
+        return (st,)
+
+
+# ---------------------------------------------------------------------------
+# R-C07-3  polarity of the novelty signal
+
+
+def _ctxs(obs):
+    return sorted({str(c) for c, _x in obs})
+
+
+def _newv_sites(prog):
+    out = []
+    for f in prog.funcs.values():
+        if 'new_values' not in f.module.source:
+            continue
+        for c in f.calls():
+            if call_name(c) == 'new_values' and len(c.args) == 1 and not c.keywords:
+                out.append((f, c))
+    return out
+
+
+def _rule3(model, rep):
+    prog = model.prog
+    with rep.rule(
+        'R-C07-3',
+        'the flag handed to new_values is the negation of "identical content was already stored": the polarity is followed from the '
+        'existence decision in db.util.move through the serializer reply, the RPC client and every local rebinding',
+        floor=4,
+        breaks='the rescheduling signal is inverted or constant: changed results do not trigger dependents, or unchanged ones always do',
+    ) as r:
+        if not any(q.endswith('.Task.new_values') for q in prog.funcs):
+            raise AnalysisError('dawgie.Task.new_values not found')
+        # (a) what the serializer replies in the Func.set branch
+        run = model.run(model.do)
+        rep.analysed(model.do)
+        sends = [(f, n, obs) for (k, _i), (f, n, obs) in run.events.items() if k == 'send' and any(c[0] == 'set' for c, _x in obs)]
+        for f, n, obs in sends:
+            r.instance()
+            vals = {x for c, x in obs if c[0] == 'set'}
+            r.check(
+                len(vals) == 1 and None not in vals and next(iter(vals))[0] == 'flag' and next(iter(vals))[1] != 0,
+                f'{f.qname}:{norm(n)}',
+                where(f, n),
+                f'reply in the Func.set branch is move\'s flag with polarity {next(iter(vals))[1] if len(vals) == 1 and None not in vals else "?"}',
+                f'the reply {norm(n)} of the Func.set branch is not (a fixed polarity of) the flag returned by db.util.move: {sorted(str(v) for v in vals)}',
+            )
+        if not sends:
+            r.fail(f'{WORKER_DO}:no-reply-in-set-branch', where(model.do), 'no reply is sent in the Func.set branch of the serializer: the client cannot learn whether the content was new')
+        # (b) every place that reports novelty
+        for f, c in _newv_sites(prog):
+            r.instance()
+            rep.analysed(f)
+            rn = model.run(f)
+            ev = rn.events.get(('newv', id(c))) if rn is not None else None
+            key = f'{f.qname}:new_values'
+            if ev is None:
+                r.fail(key, where(f, c), 'the new_values call was not reached by the interpreter (not understood)')
+                continue
+            vals = {x for _c, x in ev[2]}
+            good = vals == {('flag', -1)}
+            why = ''
+            if not good:
+                if vals == {('flag', 1)}:
+                    why = 'it has the polarity of "already stored" (inverted: an even number of negations between move and new_values)'
+                elif vals == {('flag', 0)}:
+                    why = 'the flag returned by db.util.move is itself not a function of prior existence (see R-C07-2)'
+                else:
+                    why = f'it is not derived from the existence decision of db.util.move on every path (abstract values: {sorted(str(v) for v in vals)})'
+            r.check(good, key, where(f, c), 'isnew == not (content already stored), on every path', f'the novelty flag given to new_values in {f.qname}: {why}')
+        # (c) the cloud relay hands move's result back unchanged
+        for sc, call in _move_sites(prog):
+            if sc.func is None:
+                continue
+            rn = model.run(sc.func)
+            for (k, _i), (f, n, obs) in (rn.events.items() if rn else ()):
+                if k == 'reply' and any(c[2] for c, _x in obs):
+                    r.instance()
+                    vals = {x[0] for c, x in obs if c[2]}
+                    r.check(
+                        vals == {('pair', model.move_pol)},
+                        f'{f.qname}:{norm(n)[:60]}',
+                        where(f, n),
+                        'the relayed reply carries the (name, flag) pair of move unchanged',
+                        f'the reply built after db.util.move in {f.qname} does not carry its result unchanged ({sorted(str(v) for v in vals)})',
+                    )
+        r.note('post: the flag is conjoined with "a Prime row already names the blob" (monotone, accepted); post _update_msv reports no novelty at all (sibling difference, harmless: no input can name __metric__)')
+        r.extra['move_flag_polarity'] = model.move_pol
+
+
+def _move_sites(prog):
+    c = prog.__dict__.get('_c07_moves')
+    if c is None:
+        c = []
+        for sc in all_scopes(prog):
+            if 'move' not in sc.module.source:
+                continue
+            for n in sc.nodes():
+                if isinstance(n, ast.Call) and sc.callee(n) == MOVE:
+                    c.append((sc, n))
+        prog.__dict__['_c07_moves'] = c
+    return c
+
+
+# ---------------------------------------------------------------------------
+# R-C07-4  file first, catalogue entry second
+
+
+def _rule4(model, rep):
+    prog = model.prog
+    with rep.rule(
+        'R-C07-4',
+        'every catalogue store of the update paths is preceded on all paths by db.util.move and records the name move returned '
+        '(shelve: table store in the Func.set branch; post: INSERT INTO Prime built in the functions that call move)',
+        floor=3,
+        breaks='a crash (or an exception of move) between the two steps leaves a catalogue entry whose file does not exist',
+    ) as r:
+        run = model.run(model.do)
+        for (k, _i), (f, n, obs) in run.events.items():
+            if k != 'table':
+                continue
+            setobs = [(c, x) for c, x in obs if c[0] == 'set' and x[0] == 'store']
+            if not setobs:
+                continue
+            r.instance()
+            key = f'{f.qname}:{norm(n)[:90]}'
+            unmoved = [c for c, _x in setobs if not c[2]]
+            vals = {x[2] for _c, x in setobs}
+            txt = next(iter(setobs))[1][3]
+            if unmoved:
+                r.fail(key, where(f, n), f'the catalogue store {norm(n)[:70]} is reachable in the Func.set branch before db.util.move was called (state {_ctxs(setobs)})')
+            elif vals != {('name',)}:
+                r.fail(key, where(f, n), f'the value stored in the catalogue ({txt or "not understood"}) is not the name returned by db.util.move on every path ({sorted(str(v) for v in vals)})')
+            else:
+                r.ok(key, 'reached only after move; stores the name move returned', where(f, n))
+        for sc, _call in _move_sites(prog):
+            f = sc.func
+            if f is None or not f.module.name.startswith('dawgie.db.post'):
+                continue
+            rep.analysed(f)
+            rn = model.run(f)
+            for (k, _i), (g, n, obs) in (rn.events.items() if rn else ()):
+                if k != 'insert':
+                    continue
+                r.instance()
+                key = f'{g.qname}:INSERT-Prime'
+                bad = [c for c, x in obs if not c[2] or ('name',) not in x]
+                r.check(
+                    not bad,
+                    key,
+                    where(g, n),
+                    'the INSERT INTO Prime parameters contain the name returned by move (data dependence => move precedes it)',
+                    f'an INSERT INTO Prime built in {g.qname} does not carry the name returned by db.util.move on every path: the row may name a file that was never stored',
+                )
+        r.note('post _retarget and promote insert Prime rows that copy the blob name of rows already catalogued: provenance across SQL result sets is not analysed (not decided)')
+
+
+# ---------------------------------------------------------------------------
+# R-C07-5  who may write the catalogue / the store
+
+
+def _relay_contract(model):
+    """field pair under which a replacement of db.util.move ships (staged, name): [(func, (fieldA, fieldB))] ; and the stores found"""
+    prog = model.prog
+    stores = []
+    for sc in all_scopes(prog):
+        if 'db.util' not in sc.module.source:
+            continue
+        for n in sc.nodes():
+            tg = n.targets if isinstance(n, ast.Assign) else ([n.target] if isinstance(n, (ast.AugAssign, ast.AnnAssign)) else [])
+            for t in tg:
+                if isinstance(t, ast.Attribute) and sc.resolve(t) in (MOVE, ENCODE, DECODE):
+                    stores.append((sc, n, sc.resolve(t)))
+    make = prog.funcs.get('dawgie.pl.message.make')
+    kw2field = {}
+    if make is not None:
+        for rt in make.own_nodes():
+            if isinstance(rt, ast.Return) and isinstance(rt.value, ast.Call):
+                for k in rt.value.keywords:
+                    if isinstance(k.value, ast.Name):
+                        kw2field[k.value.id] = k.arg
+    contracts = []
+    for sc, n, sym in stores:
+        if sym != MOVE:
+            continue
+        tsym = sc.resolve(n.value) if isinstance(getattr(n, 'value', None), (ast.Name, ast.Attribute)) else None
+        fn = prog.func_of(tsym) if tsym else None
+        pair = None
+        if fn is not None:
+            ps = fn.params()[1:] if fn.cls is not None and not fn.is_staticmethod() else fn.params()
+            for c in fn.calls():
+                if prog.callee(c, fn) == 'dawgie.pl.message.make' and len(ps) >= 2:
+                    m = {k.value.id: kw2field.get(k.arg) for k in c.keywords if isinstance(k.value, ast.Name)}
+                    if m.get(ps[0]) and m.get(ps[1]):
+                        pair = (m[ps[0]], m[ps[1]])
+        contracts.append((sc, n, fn, pair))
+    return stores, contracts
+
+
+def _rule5(model, rep):
+    prog = model.prog
+    with rep.rule(
+        'R-C07-5',
+        'who may write: catalogue stores only in the Func.set branch, deletes only in shelve.remove; db.util.move only receives '
+        '(staged file, name) pairs made by encode; files under data_dbs are changed only by db.util.move and by purge.py under its guards',
+        floor=10,
+        breaks='a catalogue entry is created without its file, a stored file is removed or rewritten while referenced, or a file is stored under a name that is not its digest',
+    ) as r:
+        run = model.run(model.do)
+        inlined = set(run.inlined)
+        # ---- (a) catalogue accesses
+        proofs = {}
+        for (k, _i), (f, n, obs) in run.events.items():
+            if k != 'table':
+                continue
+            key = f'{f.qname}:{norm(n)[:90]}'
+            for c, x in sorted(obs, key=str):
+                kind, cls = x[0], x[1]
+                if c[0] == 'set' and kind == 'store':
+                    r.instance()
+                    r.ok(key, 'catalogue store inside the Func.set branch (content decided by R-C07-4)', where(f, n), nontrivial=False)
+                    continue
+                r.instance()
+                eff = cls if cls != 'req' else {'prime': 'prime', 'nonprime': 'nonprime'}.get(c[1], 'req?')
+                if eff == 'nonprime':
+                    r.ok(key + f'@{c[0]}', f'{kind} on a table proven not to be prime (guard on the request table / constant selection)', where(f, n))
+                elif eff == 'req?' and kind == 'store' and c[0] not in ('?', '-'):
+                    if c[0] not in proofs:
+                        proofs[c[0]] = client_tables(model, c[0])
+                    tabs, unknown = proofs[c[0]]
+                    r.check(
+                        'prime' not in tabs and not unknown and bool(tabs),
+                        key + f'@{c[0]}',
+                        where(f, n),
+                        f'no guard, but every in-repository client of Func.{c[0]} names a constant table in {sorted(tabs)}',
+                        f'table store in the Func.{c[0]} branch may hit the prime table: clients name {sorted(tabs)}' + (f', unresolved: {unknown[:3]}' if unknown else ''),
+                    )
+                else:
+                    r.fail(key + f'@{c[0]}', where(f, n), f'{kind} on the prime table (or a table not shown to differ from it) outside the Func.set branch (dispatch state {c})')
+        r.extra['client_tables'] = {k: sorted(v[0]) for k, v in proofs.items()}
+        deletes = 0
+        for sc in all_scopes(prog):
+            if '.tables' not in sc.module.source or sc.module.name.startswith('dawgie.db.tools'):
+                continue
+            if sc.qname == WORKER_DO:
+                continue
+            evs = [e for e in table_events(prog, sc) if e[0] != 'read']
+            if not evs:
+                continue
+            if sc.qname in inlined:
+                callers = {e.src.qname for e in model.ctx.cg.callers(sc.qname) if e.kind == 'direct'}
+                seen = {id(n) for (k, _i), (f, n, _o) in run.events.items() if k == 'table' and f.qname == sc.qname}
+                if callers <= ({WORKER_DO} | inlined) and all(id(a) in seen for _k, a, _v, _s in evs):
+                    continue
+            for kind, anchor, _val, sel in evs:
+                cls = sel_class(model, sc, sel)
+                if cls == 'nonprime':
+                    continue
+                r.instance()
+                key = f'{sc.qname}:{norm(anchor)[:90]}'
+                if kind == 'delete' and cls == 'prime' and sc.qname == SHELVE_REMOVE:
+                    deletes += 1
+                    r.ok(key, 'catalogue delete inside shelve.remove (entry only; the file stays)', sc.where(anchor), nontrivial=False)
+                else:
+                    r.fail(key, sc.where(anchor), f'{kind} on the prime table in {sc.qname}: catalogue entries may only be stored by the Func.set branch of the serializer and deleted by shelve.remove')
+        prog.func(SHELVE_REMOVE)
+        # ---- (b) what db.util.move is given
+        stores, contracts = _relay_contract(model)
+        set_cmds = []
+        for sc, call in command_sites(prog):
+            if model.enum_member(sc, model.cmd_field(call, model.f_func), FUNC) == 'set' and sc.func is not None:
+                rn = model.run(sc.func)
+                ev = rn.events.get(('command', id(call))) if rn else None
+                set_cmds.append((sc, call, {x[1] for _c, x in ev[2]} if ev else {None}))
+        for sc, call in _move_sites(prog):
+            r.instance()
+            key = f'{sc.qname}:{norm(call)}'
+            if sc.func is None:
+                r.fail(key, sc.where(call), 'db.util.move called from module-level code: provenance of its arguments not understood')
+                continue
+            rep.analysed(sc.func)
+            rn = model.run(model.do if sc.qname in inlined else sc.func)
+            ev = rn.events.get(('move', id(call))) if rn else None
+            if ev is None:
+                r.fail(key, sc.where(call), 'this call of db.util.move was not reached by the interpreter (not understood)')
+                continue
+            for c, pv in sorted({(c if pv[0] == 'request-value' else None, pv) for c, pv in ev[2]}, key=str):
+                if pv[0] == 'encode':
+                    r.ok(key, 'arguments are the (staged file, name) pair returned by encode', sc.where(call))
+                elif pv[0] == 'request-value':
+                    bad = [f'{s.qname}: {norm(cl)[:50]}' for s, cl, vals in set_cmds if vals != {('enc', None)}]
+                    r.check(
+                        c[0] == 'set' and set_cmds and not bad,
+                        key,
+                        sc.where(call),
+                        f'arguments are the value field of a Func.set request; all {len(set_cmds)} client construction(s) of such a request put the result of encode there',
+                        'db.util.move receives the value field of the request, but ' + ('not in the Func.set branch' if c[0] != 'set' else f'a client builds COMMAND(Func.set, ...) with a value that is not the result of encode: {bad}' if bad else 'no client builds such a request'),
+                    )
+                elif pv[0] == 'relay':
+                    good = [fn.qname for _s, _n, fn, pair in contracts if fn is not None and pair == (pv[2], pv[3])]
+                    r.check(
+                        bool(contracts) and len(good) == len(contracts),
+                        key,
+                        sc.where(call),
+                        f'relay: message fields ({pv[2]}, {pv[3]}) are what the replacement(s) of db.util.move {good} ship as (staged, name)',
+                        f'relay of db.util.move takes ({pv[2]}, {pv[3]}) from the message, but the client side ships (staged, name) as {[p for _s, _n, _f, p in contracts]}',
+                    )
+                else:
+                    r.fail(key, sc.where(call), f'db.util.move is called with arguments not shown to be a (staged file, name) pair made by encode: {pv[1]}')
+        for sc, n, sym in stores:
+            tsym = sc.resolve(n.value) if isinstance(getattr(n, 'value', None), (ast.Name, ast.Attribute)) else None
+            fn = prog.func_of(tsym) if tsym else None
+            # accepted idiom: the cloud worker (no disk access) replaces the three store functions by relays to the pipeline host
+            r.check(
+                fn is not None and any(prog.callee(c, fn) == 'dawgie.pl.message.make' for c in fn.calls()),
+                f'{sc.qname}:{norm(n)}',
+                sc.where(n),
+                f'{sym} replaced by the relay {fn.qname if fn else "?"} (cloud worker; argument order checked at the relay end)',
+                f'{sym} is rebound in {sc.qname} to something that is not a message relay: the store functions are no longer the single authority',
+                nontrivial=False,
+            )
+        for sc in all_scopes(prog):
+            if 'db.util' not in sc.module.source:
+                continue
+            par = sc.parents()
+            for n in sc.nodes():
+                if isinstance(n, ast.Attribute) and isinstance(n.ctx, ast.Load) and sc.resolve(n) == MOVE:
+                    p = par.get(id(n))
+                    if not (isinstance(p, ast.Call) and p.func is n):
+                        r.instance()
+                        r.fail(f'{sc.qname}:{norm(p) if p is not None else norm(n)}'[:120], sc.where(n), 'db.util.move is used as a value (alias / callback): its callers can no longer be enumerated')
+        # ---- (c) files under data_dbs
+        taint = Taint(prog)
+        purge_mod = prog.module(PURGE)
+        purge_runs = {}
+        subdirs = 0
+        for (q, _i), (sc, call, kind, cls) in sorted(taint.sinks.items(), key=lambda kv: (kv[0][0], kv[1][1].lineno)):
+            key = f'{q}:{norm(call)[:90]}'
+            if cls == 'subdir':
+                subdirs += 1
+                r.ok(key, f'{kind} below a constant-named subdirectory of data_dbs (not the blob namespace; purge only touches plain files directly in data_dbs)', sc.where(call), nontrivial=False)
+                continue
+            r.instance()
+            if q == MOVE:
+                r.ok(key, 'inside db.util.move (decided by R-C07-2)', sc.where(call), nontrivial=False)
+            elif sc.module is purge_mod and kind == 'unlink':
+                fl = purge_runs.get(q)
+                if fl is None:
+                    fl = purge_runs[q] = _Purge(prog, sc, taint)
+                    fl.block(sc.body, {('?', None)})
+                    for node, msg in fl.problems:
+                        r.fail(f'{q}:{norm(node)[:80]}', sc.where(node), msg)
+                _c, sts = fl.unlinks.get(id(call), (call, set()))
+                pathnames = {n.id for a in call.args[:1] for n in ast.walk(a) if isinstance(n, ast.Name)}
+                bad = sorted(str(s) for s in sts if not (s[0] == 'nonempty' and s[1] and s[1][1] == 'unref' and s[1][0] in pathnames))
+                r.check(
+                    bool(sts) and not bad,
+                    key,
+                    sc.where(call),
+                    'unlink reached only with a non-empty catalogue snapshot and the listed file name tested "not in" that snapshot',
+                    'purge unlinks a file of the store '
+                    + ('in a state where ' + '; '.join(bad) + ' (catalogue snapshot empty/untested, or the file is/ may be referenced)' if sts else 'at a place the interpreter did not reach'),
+                )
+                r.extra['purge_states'] = fl.visited
+            else:
+                r.fail(key, sc.where(call), f'{kind} of a path derived from dawgie.context.data_dbs outside db.util.move and purge.py: stored files may be removed or rewritten behind the catalogue')
+        if not purge_runs:
+            r.fail(f'{PURGE}:no-unlink', purge_mod.relpath, 'purge.py no longer unlinks files of data_dbs in a recognised form (guards cannot be checked)')
+        r.extra['subdirectory_writes'] = subdirs
+        r.note('offline tools under db/tools are outside the catalogue-writer scan by their own contract (pipeline down); purge.py is analysed for its guards')
+        r.note('DBI.open/close/copy/save_as handle whole shelve files (life-cycle), not entries; not analysed here')
+
+
+# ---------------------------------------------------------------------------
+
+
+def check(ctx):
+    rep = Report(
+        PID,
+        ctx.tier,
+        ctx.prog,
+        'Decides from db/util/__init__.py, db/shelve/comms.py, db/shelve/model.py, db/post/__init__.py, pl/worker/aws.py, db/tools/purge.py and a '
+        'whole-program scan: (1) typestate + def-use: the store name is exactly {md5, sha1} of the staged file read after the pickle was closed; '
+        '(2) path enumeration of db.util.move under an oracle for "destination existed": test before any file operation, unlink-staged / rename-into-store, '
+        'flag a function of the decision; (3) interprocedural polarity of the novelty flag from that decision through serializer reply, RPC client and '
+        'locals to every new_values call; (4) dominance/data dependence: catalogue store after move and of move\'s name (shelve Func.set, post INSERT); '
+        '(5) who-may-write over all modules: catalogue stores/deletes, argument provenance of every move call (encode pair, RPC value field, cloud relay '
+        'field agreement), file operations on data_dbs-derived paths, and the guards of purge.py. '
+        'Not decided: atomicity of shutil.move across file systems, torn writes, digest collisions, concrete store contents after a history, '
+        'provenance of blob names copied between Prime rows (post _retarget/promote).',
+        assumptions=[
+            'shutil.move / os.unlink / md5sum / sha1sum behave as documented; rename within one file system is atomic',
+            'the reply to a COMMAND request is what the serializer passes to its reply primitive in the branch of that Func (RPC edge)',
+            'requests reach the serializer only from the COMMAND constructions found in the repository',
+        ],
+    )
+    rep.not_decided = [
+        'atomicity of shutil.move across file systems, torn writes, digest collisions',
+        'concrete store / catalogue contents after a history',
+        'post: blob names copied from existing Prime rows (_retarget, promote)',
+        'post _load/_update SQL semantics',
+    ]
+    _rule1(ctx, rep)
+    _rule2(ctx, rep)
+    model = Model(ctx)
+    _rule3(model, rep)
+    _rule4(model, rep)
+    _rule5(model, rep)
+    for q, rn in model._runs.items():
+        if rn.events:
+            rep.analysed(ctx.prog.funcs[q])
+    rep.extra['interpreter_nodes_visited'] = model.visited
+    rep.extra['functions_interpreted'] = len(model._runs)
+    return rep
+
+
+_U = 'db/util/__init__.py'
+_C = 'db/shelve/comms.py'
+_M = 'db/shelve/model.py'
+_P = 'db/post/__init__.py'
+_S = 'db/shelve/__init__.py'
+_A = 'pl/worker/aws.py'
+_G = 'db/tools/purge.py'
+_MD5 = "m = _extract(subprocess.check_output(['md5sum', '-b', fn]))"
+_MOVE_BODY = """exists = os.path.exists(nfn)
+
+    if exists:
+        os.unlink(fn)
+    else:
+        shutil.move(fn, nfn)"""
+_SET3 = """value, exists = dawgie.db.util.move(*request.value)
+            key = str(request.keyset)
+            DBI().tables[request.table.value][key] = value"""
+
+VARIANTS = [
+    # ---- R-C07-1
+    V('md5 taken of the value repr instead of the file', 'B', _U, 'encode', _MD5, 'm = str(hash(repr(value)))', 'R-C07-1'),
+    V('digest taken while the pickle is still open', 'B', _U, 'encode',
+      "pickle.dump(value, f, pickle.HIGHEST_PROTOCOL)\n    os.chmod(fn, int('0664', 8))  # -rw-rw-r--\n    " + _MD5,
+      "pickle.dump(value, f, pickle.HIGHEST_PROTOCOL)\n        " + _MD5 + "\n    os.chmod(fn, int('0664', 8))", 'R-C07-1'),
+    V('digest taken before anything was written', 'B', _U, 'encode', "os.close(fid)", "os.close(fid)\n    " + _MD5, 'R-C07-1'),
+    V('name carries the temporary file name', 'B', _U, 'encode', "result = '_'.join([m, s])", "result = '_'.join([m, s, os.path.basename(fn)])", 'R-C07-1'),
+    V('name is the sha1 only', 'B', _U, 'encode', "result = '_'.join([m, s])", "result = s", 'R-C07-1'),
+    V('something else is pickled', 'B', _U, 'encode', 'pickle.dump(value, f,', 'pickle.dump(repr(value), f,', 'R-C07-1'),
+    V('file rewritten after the digest', 'B', _U, 'encode', "result = '_'.join([m, s])", "result = '_'.join([m, s])\n    with open(fn, 'wb') as f:\n        pickle.dump(value, f, 2)", 'R-C07-1'),
+    V('staging inside the store directory', 'B', _U, 'encode', 'dir=dawgie.context.data_stg', 'dir=dawgie.context.data_dbs', 'R-C07-1'),
+    V('rename the staged path local', 'N', _U, 'encode', 'fn', 'staged', None, 'all'),
+    V('md5 through hashlib over the closed file', 'N', _U, 'encode', _MD5, "with open(fn, 'rb') as g:\n        m = hashlib.md5(g.read()).hexdigest()", None),
+    V('pickle written through the mkstemp descriptor', 'N', _U, 'encode', "os.close(fid)\n    with open(fn, 'wb') as f:", "with os.fdopen(fid, 'wb') as f:", None),
+    V('logging added between dump and digest', 'N', _U, 'encode', "os.chmod(fn, int('0664', 8))", "os.chmod(fn, int('0664', 8))\n    log.debug('staged %s', fn)", None),
+    # ---- R-C07-2
+    V('existence evaluated after the move', 'B', _U, 'move', _MOVE_BODY, 'shutil.move(fn, nfn)\n    exists = os.path.exists(nfn)', 'R-C07-2'),
+    V('stored copy unlinked instead of the staged one', 'B', _U, 'move', 'os.unlink(fn)', 'os.unlink(nfn)', 'R-C07-2'),
+    V('stored copy overwritten when it exists', 'B', _U, 'move', 'if exists:\n        os.unlink(fn)\n    else:\n        shutil.move(fn, nfn)', 'shutil.move(fn, nfn)', 'R-C07-2'),
+    V('copy instead of rename into the store', 'B', _U, 'move', 'shutil.move(fn, nfn)', 'shutil.copy(fn, nfn)', 'R-C07-2'),
+    V('flag constant', 'B', _U, 'move', 'return result, exists', 'return result, False', 'R-C07-2'),
+    V('existence of the staged file tested instead', 'B', _U, 'move', 'exists = os.path.exists(nfn)', 'exists = os.path.exists(fn)', 'R-C07-2'),
+    V('destination not under the name', 'B', _U, 'move', 'nfn = os.path.join(dawgie.context.data_dbs, result)', 'nfn = os.path.join(dawgie.context.data_dbs, os.path.basename(fn))', 'R-C07-2'),
+    V('exists inlined into the if with two returns', 'N', _U, 'move', _MOVE_BODY + '\n\n    return result, exists',
+      'if os.path.exists(nfn):\n        os.unlink(fn)\n        return result, True\n    shutil.move(fn, nfn)\n    return result, False', None),
+    V('os.replace instead of shutil.move', 'N', _U, 'move', 'shutil.move(fn, nfn)', 'os.replace(fn, nfn)', None),
+    V('reordered branches', 'N', _U, 'move', 'if exists:\n        os.unlink(fn)\n    else:\n        shutil.move(fn, nfn)', 'if not exists:\n        shutil.move(fn, nfn)\n    else:\n        os.unlink(fn)', None),
+    # ---- R-C07-3
+    V('isnew not negated in _update', 'B', _M, 'Interface._update', 'isnew = not self._set_prime(vname, sv[k])', 'isnew = self._set_prime(vname, sv[k])', 'R-C07-3'),
+    V('isnew not negated in _update_msv', 'B', _M, 'Interface._update_msv', 'isnew = not self._set_prime(vname, msv[k])', 'isnew = self._set_prime(vname, msv[k])', 'R-C07-3'),
+    V('isnew constant', 'B', _M, 'Interface._update', 'isnew = not self._set_prime(vname, sv[k])', 'self._set_prime(vname, sv[k])\n                    isnew = True', 'R-C07-3'),
+    V('double negation: serializer replies not exists', 'B', _C, 'Worker.do', 'self._send(exists)', 'self._send(not exists)', 'R-C07-3'),
+    V('serializer replies a constant', 'B', _C, 'Worker.do', 'self._send(exists)', 'self._send(True)', 'R-C07-3'),
+    V('_set_prime swallows the reply', 'B', _C, 'Connector._set_prime', 'return self.__do(COMMAND(Func.set, key, Table.prime, value))', 'self.__do(COMMAND(Func.set, key, Table.prime, value))\n        return True', 'R-C07-3'),
+    V('post reports exists as new', 'B', _P, 'Interface._update', 'not exists,', 'exists,', 'R-C07-3'),
+    V('move itself returns not exists', 'B', _U, 'move', 'return result, exists', 'return result, not exists', 'R-C07-3'),
+    V('cloud relay flips the flag', 'B', _A, 'Contractor._process', 'result = dawgie.db.util.move(msg.revision, msg.target)', 'result = dawgie.db.util.move(msg.revision, msg.target)\n                result = (result[0], not result[1])', 'R-C07-3'),
+    V('move result unpacked through a temporary', 'N', _C, 'Worker.do', 'value, exists = dawgie.db.util.move(*request.value)', 'tmp = dawgie.db.util.move(*request.value)\n            value, exists = tmp', None),
+    V('move result taken apart by index', 'N', _C, 'Worker.do', 'value, exists = dawgie.db.util.move(*request.value)', 'res = dawgie.db.util.move(*request.value)\n            value = res[0]\n            exists = res[1]', None),
+    V('isnew through a conditional expression', 'N', _M, 'Interface._update', 'isnew = not self._set_prime(vname, sv[k])', 'isnew = False if self._set_prime(vname, sv[k]) else True', None),
+    V('isnew through a temporary', 'N', _M, 'Interface._update_msv', 'isnew = not self._set_prime(vname, msv[k])', 'old = self._set_prime(vname, msv[k])\n                isnew = old is False', None),
+    V('_set_prime returns through a local', 'N', _C, 'Connector._set_prime', 'return self.__do(COMMAND(Func.set, key, Table.prime, value))', 'reply = self.__do(COMMAND(Func.set, key, Table.prime, value))\n        return reply', None),
+    # ---- R-C07-4
+    V('table store moved above move', 'B', _C, 'Worker.do', _SET3,
+      'key = str(request.keyset)\n            DBI().tables[request.table.value][key] = request.value[1]\n            value, exists = dawgie.db.util.move(*request.value)', 'R-C07-4'),
+    V('catalogue records the staged path', 'B', _C, 'Worker.do', 'DBI().tables[request.table.value][key] = value', 'DBI().tables[request.table.value][key] = request.value[0]', 'R-C07-4'),
+    V('catalogue store only when new, before the move on the other path', 'B', _C, 'Worker.do', _SET3,
+      'key = str(request.keyset)\n            if key in DBI().tables[request.table.value]:\n                DBI().tables[request.table.value][key] = request.value[1]\n            ' + _SET3, 'R-C07-4'),
+    V('post INSERT names something else than the moved blob', 'B', _P, 'Interface._update', 'val_ID[0],\n                            result,', 'val_ID[0],\n                            vn,', 'R-C07-4'),
+    V('post msv INSERT names something else', 'B', _P, 'Interface._update_msv', 'val_ID[0],\n                        result,', 'val_ID[0],\n                        vn,', 'R-C07-4'),
+    V('key computed before the move', 'N', _C, 'Worker.do', _SET3,
+      'key = str(request.keyset)\n            value, exists = dawgie.db.util.move(*request.value)\n            DBI().tables[request.table.value][key] = value', None),
+    V('logging between move and store', 'N', _C, 'Worker.do', 'key = str(request.keyset)\n            DBI().tables[request.table.value][key] = value', "key = str(request.keyset)\n            log.debug('set %s', key)\n            DBI().tables[request.table.value][key] = value", None),
+    # ---- R-C07-5
+    V('second catalogue writer in shelve.reset', 'B', _S, 'reset', "pk = [runid, DBI().tables.target[tn], DBI().tables.task[tskn]]", "pk = [runid, DBI().tables.target[tn], DBI().tables.task[tskn]]\n    DBI().tables.prime[str(tuple(pk))] = 'x'", 'R-C07-5'),
+    V('catalogue delete in shelve.reset', 'B', _S, 'reset', "pk = [runid, DBI().tables.target[tn], DBI().tables.task[tskn]]", "pk = [runid, DBI().tables.target[tn], DBI().tables.task[tskn]]\n    DBI().tables.prime.clear()", 'R-C07-5'),
+    V('catalogue written through an alias', 'B', _S, 'trace', 'result = {}', "result = {}\n    cat = DBI().tables.prime\n    cat.update({'k': 'v'})", 'R-C07-5'),
+    V('client appends to the prime table', 'B', _S, 'update', 'foreman.append(Table.value, util.construct(vn, svid, v))', 'foreman.append(Table.prime, util.construct(vn, svid, v))', 'R-C07-5'),
+    V('store in the get branch of the serializer', 'B', _C, 'Worker.do', 'self._send(DBI().tables[request.table.value][key])', "DBI().tables[request.table.value][key] = 'x'\n            self._send(DBI().tables[request.table.value][key])", 'R-C07-5'),
+    V('relay passes (name, staged) swapped', 'B', _A, 'Contractor._process', 'dawgie.db.util.move(msg.revision, msg.target)', 'dawgie.db.util.move(msg.target, msg.revision)', 'R-C07-5'),
+    V('cloud client ships (name, staged) swapped', 'B', _A, 'Context.move', 'dawgie.pl.message.make(rev=fn, target=result, typ=self.__cloud)', 'dawgie.pl.message.make(rev=result, target=fn, typ=self.__cloud)', 'R-C07-5'),
+    V('move fed with a pair not made by encode', 'B', _P, 'Interface._update_msv', 'dawgie.db.util.move(*dawgie.db.util.encode(val))[0]', 'dawgie.db.util.move(str(val), vn)[0]', 'R-C07-5'),
+    V('Func.set request carries something else than encode()', 'B', _C, 'Connector._set_prime', 'value = dawgie.db.util.encode(value)', "value = (str(value), 'x')", 'R-C07-5'),
+    V('move aliased', 'B', _P, 'Interface._update_msv', 'valid = True', 'valid = True\n        mv = dawgie.db.util.move', 'R-C07-5'),
+    V('purge guard inverted', 'B', _G, None, 'if fn not in values and', 'if fn in values and', 'R-C07-5'),
+    V('purge guard dropped', 'B', _G, None, 'if fn not in values and os.path.isfile(', 'if os.path.isfile(', 'R-C07-5'),
+    V('purge abort-if-no-keys removed', 'B', _G, None, 'sys.exit(-1)', 'pass', 'R-C07-5'),
+    V('purge snapshot filtered', 'B', _G, None, 'values = list(dawgie.db._prime_values())', 'values = [v for v in dawgie.db._prime_values() if v]', 'R-C07-5'),
+    V('stored file unlinked in decode', 'B', _U, 'decode', 'return result', 'os.unlink(os.path.join(dawgie.context.data_dbs, entry))\n    return result', 'R-C07-5'),
+    V('stored file rewritten through a helper', 'B', _U, 'decode', 'return result', "rotate(os.path.join(dawgie.context.data_dbs, entry), [], {})\n    return result", 'R-C07-5'),
+    V('stored file rewritten in place', 'B', 'util/metrics.py', None, 'self.__real = dawgie.db.util.decode(self.__blobname)', "self.__real = dawgie.db.util.decode(self.__blobname)\n                open(os.path.join(dawgie.context.data_dbs, self.__blobname), 'wb').close()", 'R-C07-5'),
+    V('purge abort written with len', 'N', _G, None, 'if not values:', 'if len(values) == 0:', None),
+    V('purge snapshot as a set', 'N', _G, None, 'values = list(dawgie.db._prime_values())', 'values = frozenset(dawgie.db._prime_values())', None),
+    V('extra read of the catalogue', 'N', _S, 'reset', "pk = [runid, DBI().tables.target[tn], DBI().tables.task[tskn]]", "pk = [runid, DBI().tables.target[tn], DBI().tables.task[tskn]]\n    n = len(DBI().tables.prime)", None),
+    V('another journal file below chronicles', 'N', 'pl/logger/chronicle.py', None, "with open(journal, 'tw', encoding='utf-8') as file:", "with open(journal + '.tmp', 'tw', encoding='utf-8') as file:", None),
+    V('remove deletes through pop', 'N', _S, 'remove', 'del prime[key]', 'prime.pop(key)', None),
+    V('encode result through a local in post', 'N', _P, 'Interface._update_msv', 'result = dawgie.db.util.move(*dawgie.db.util.encode(val))[0]', 'pair = dawgie.db.util.encode(val)\n            result = dawgie.db.util.move(*pair)[0]', None),
+]
